@@ -23,6 +23,8 @@ J = '{"jsonrpc":"2.0",'
 LINES_LONG = [
     ("resp-ascii", J + '"id":1,"result":{"t":"abc"}}'),
     ("resp-utf8", J + '"id":"r\u00e9","result":{"t":"\u00e9\u20ac\U0001F600 \u0085 \u2028 \u2029 \\n \\u2028"}}'),
+    ("resp-id0", J + '"id":0,"result":{"z":0}}'),
+    ("resp-id-empty", J + '"id":"","result":{"e":""}}'),
     ("err", J + '"id":2,"error":{"code":-32000,"message":"ü "}}'),
     ("notif", J + '"method":"notifications/message","params":{"data":"\u00fc\u2028\U0001F600"}}'),
     ("req", J + '"id":"s-1","method":"ping"}'),
@@ -227,6 +229,74 @@ def _which_line(dumped: str) -> str:
     return "other"
 
 
+# ---------------------------------------------------------------------------
+# state that must not survive: the same client object entered again; a closed per-request stream
+# ---------------------------------------------------------------------------
+RUN_RE = "vf.checks.c05:run_reentry"
+TAILS = {"none": b"", "plain-fragment": b'{"jsonrpc":"2.0","id":9,"res', "mid-utf8": '{"jsonrpc":"2.0","method":"x\u00e9'.encode("utf-8")[:-1],
+         "cr-only": b'{"jsonrpc":"2.0","id":9,"result":{}}\r', "whitespace": b"   "}
+
+
+def run_reentry(ctl: explorer.Ctl, cfg: Dict[str, Any]) -> Dict[str, Any]:
+    from chuk_mcp.transports.stdio.stdio_client import StdioClient
+    import anyio
+
+    loop = new_loop(horizon=60)
+    q = seams.Quiescence(loop)
+    procs = [seams.FakeProcess(), seams.FakeProcess()]
+    first_ok = (J + '"id":"c1","result":{"n":1}}\n').encode()
+    second = ((J + '"id":"c2-a","result":{"t":"\u00e9"}}\n') + (J + '"method":"notifications/y"}\n') + (J + '"id":"c2-b","result":{}}\n')).encode("utf-8")
+    got: List[List[Any]] = [[], []]
+    info: Dict[str, Any] = {}
+
+    async def main():
+        it = iter(procs)
+        with seams.patched_open_process(lambda cmd, kw: next(it)):
+            client = StdioClient(seams.stdio_params())
+            for n in range(2):
+                async with client:
+                    read, write = client.get_streams()
+                    if cfg.get("legacy") and n == 1:
+                        # a per-request stream whose owner gave up (closed its receiving end) before the answer came
+                        rs = client.new_request_stream("c2-a")
+                        if cfg["legacy"] == "closed":
+                            rs.close()
+                    data = (first_ok + TAILS[cfg["tail"]]) if n == 0 else second
+                    cut = cfg.get("cut")
+                    chunks = [data] if not cut else [data[:cut], data[cut:]]
+                    for ch in chunks:
+                        if ch:
+                            procs[n].stdout.feed(ch)
+                            await q.settle()
+                    if n == 0 and cfg.get("end") == "child-dies":
+                        procs[n].exit(1)
+                        await q.settle()
+                    try:
+                        while True:
+                            got[n].append(read.receive_nowait())
+                    except (anyio.WouldBlock, anyio.EndOfStream, anyio.ClosedResourceError):
+                        pass
+
+    status, val = loop.run_main(main())
+    errors = loop.collect_errors()
+    loop.abandon()
+    viol = []
+    if status != "ok":
+        return {"outcome": status, "violations": [{"sig": {"class": "did-not-finish", "part": "reentry"}, "msg": f"cfg={cfg}: {status} {val!r}"}]}
+    d2 = [dump_msg(m) for m in got[1]]
+    exp2 = reference(second)
+    norm = lambda m: {k: v for k, v in m.items() if v is not None}
+    if not (len(d2) == len(exp2) and all(strict_eq(norm(a), norm(b)) for a, b in zip(d2, exp2))):
+        viol.append({"sig": {"class": "second-connection-disturbed", "tail": cfg["tail"], "legacy": cfg.get("legacy")},
+                     "msg": f"cfg={cfg}: second connection delivered {d2}, the child wrote {exp2}"})
+    d1 = [dump_msg(m) for m in got[0]]
+    if [m.get("id") for m in d1 if isinstance(m, dict)][:1] != ["c1"]:
+        viol.append({"sig": {"class": "first-connection-lost-line"}, "msg": f"cfg={cfg}: first connection delivered {d1}"})
+    if errors:
+        viol.append({"sig": {"class": "loop-error"}, "msg": f"{errors[:2]}"})
+    return {"outcome": f"{len(d1)}/{len(d2)}", "violations": viol}
+
+
 def configs_for(tier: str):
     groups = {}
     # (1) every single cut position of every stream of <= 2 long lines
@@ -297,6 +367,10 @@ def run(tier: str, only=None) -> core.Result:
             continue
         out = explorer.explore(RUN, cfgs, fidelity=True)
         sched.absorb(res, name, RUN, out, cfgs)
+    rcfgs = [{"tail": t, "end": e, "cut": c, "legacy": lg} for t in TAILS for e in ("clean", "child-dies") for c in (None, 7)
+             for lg in (None, "open", "closed")]
+    out = explorer.explore(RUN_RE, rcfgs, fidelity=True)
+    sched.absorb(res, "same-client-entered-again+closed-request-stream", RUN_RE, out, rcfgs, min_outcomes=1)
     if not only or "conformance" in only:
         from . import c05_conf
 
